@@ -68,7 +68,12 @@ Fixpoint find_match (first last : option pt) (l : list seg) : option (jmatch * l
       end
   end.
 
-(* inner loop; fuel = number of remaining segments (one is consumed per iteration) *)
+(* inner loop; fuel = number of remaining segments (one is consumed per iteration).
+   NOTE on fuel: [grow] and [join_loop] return their current state when the fuel is used up
+   instead of an explicit out-of-fuel result.  This cannot hide anything: every iteration removes
+   a segment, both are called with fuel = number of segments, and C17/ProofsGeoEq.v
+   (C17_mputil_join_is_geo_join) proves the result equal to Geo.Model.join, whose out-of-fuel
+   outcome is explicit and proved unreachable (Geo.JoinProofs.join_terminates). *)
 Fixpoint grow (fuel : nat) (cur segs : list seg) : list seg * list seg :=
   match fuel with
   | O => (cur, segs)
